@@ -31,6 +31,7 @@ LatTy(name) ==
      [] name = "cp_i32"   -> [k |-> "cp", el |-> {}]
      [] name = "prod_max_dual" -> [k |-> "prod", of |-> <<IntTy, [k |-> "dual", of |-> IntTy]>>]
      [] name = "lex_pair" -> [k |-> "lex", of |-> <<IntTy, IntTy>>]
+     [] name = "lex_dual_pair" -> [k |-> "lex", of |-> <<[k |-> "dual", of |-> IntTy], IntTy>>]     \* (Dual<i32>, i32)
      [] name = "bool_or"  -> [k |-> "bool"]
 
 --------------------------------------------------------------------------------
